@@ -50,11 +50,11 @@ def gen_name(fo_path):
     return os.path.join(d, "gen_" + b[:-3] + ".go")
 
 
-def run_fc_many(ctx, wd, names, timeout_each=20, per_invocation_args=None, fcbin=None, env=None):
+def run_fc_many(ctx, wd, names, timeout_each=20, per_invocation_args=None, fcbin=None, env=None, foi=None):
     """Run `fc pkg_all.foi <name>.fo` for every name in wd, one process per name, 16 at a time (xargs).
     Leaves <name>.out / <name>.err / <name>.rc next to the sources. Returns dict name -> (rc, stdout, stderr)."""
     fc = fcbin or ctx.build("fc")
-    foi = os.path.join(ctx.repo, "pkg", "pkg_all.foi")
+    foi = foi or os.path.join(ctx.repo, "pkg", "pkg_all.foi")
     script = os.path.join(wd, "_run1.sh")
     with open(script, "w") as f:
         f.write("#!/bin/sh\ncd %s\ntimeout %d %s %s \"$1.fo\" > \"$1.out\" 2> \"$1.err\"\necho $? > \"$1.rc\"\n" % (wd, timeout_each, fc, foi))
